@@ -39,7 +39,8 @@
 //   pstrtod-misrounded:err=ulps,<int|frac>,<noexp|exp>,<digits<=15|digits>=16>       (<= 4096 ulp off)
 //   pstrtod-misrounded:err=gross,<noexp|exp+|exp->,want=<zero|subnormal|normal|inf>,got=<zero|inf|nan|finite>
 //   pstrtod-misrounded:err=<ulps|gross>,form=malformed
-//   pstrtod-endptr:form=<int|int-point|frac|point-frac>,<noexp|exp0|exp+|exp->,<digits class>,suffix=<none|f|l>
+//   pstrtod-endptr:<int|int-point|frac>,<noexp|exp>,suffix=<none|f|l>
+//   pstrtod-locale-dependent:<err=ulps|err=gross|endptr>
 // The parser witness is minimised (drop sign/suffix/exponent, shrink exponent, drop digits) while the same
 // error class persists, and the key is computed from the minimal literal.
 
@@ -517,7 +518,17 @@ static void check_parse(const std::string &s, const char *stratum) {
     fail(key, "in=" + s + " got=" + hex64(bits(v.got)) + " want=" + hex64(bits(v.want)) + " min=" + minimal);
   } else if (wf && !v.end_ok && (l.suffix.empty() || strchr("fFlL", l.suffix[0]) != NULL)) {
     std::string suf = l.suffix.empty() ? "none" : (l.suffix[0] == 'f' || l.suffix[0] == 'F') ? "f" : "l";
-    fail("pstrtod-endptr:" + lit_form(l) + ",suffix=" + suf, "in=" + s);
+    if (comma_mode) {
+      char *e1 = NULL, *e2 = NULL;
+      pstrtod_in_c_locale(s.c_str(), &e1);
+      strtod_l(s.c_str(), &e2, c_loc);
+      if (e1 == e2) {
+        fail("pstrtod-locale-dependent:endptr", "in=" + s);
+        return;
+      }
+    }
+    fail(std::string("pstrtod-endptr:") + (l.fp.empty() ? "int" : "frac") + (l.point && l.fp.empty() ? "-point" : "") +
+         ((l.has_exp) ? ",exp" : ",noexp") + ",suffix=" + suf, "in=" + s);
   }
 }
 
